@@ -339,9 +339,14 @@ def rule_replace_and_slots(check, rule, classes=UPGRADED, only_base_overrides=Fa
                                                 witness="UpgradedSignature(params).replace().sources == {}")
                             continue
                         # defaults to the receiver's value, overridden by the argument
-                        from_self = mentions(v, ('A', selft, s_))
+                        # (a container built here from the receiver's value or from the argument -- the provenance map restricted to the
+                        # parameters that are left, D47 -- counts as that value)
+                        v_ = v
+                        if v[0] in ('D', 'L', 'SET') and it.obj_init.get(v) is not None:
+                            v_ = it.obj_init.get(v)
+                        from_self = mentions(v_, ('A', selft, s_))
                         lits = dict(p.lits)
-                        overridden = any(isinstance(x, tuple) and x[0] == 'P' for x in subterms(v)) or v[0] == 'M' or \
+                        overridden = any(isinstance(x, tuple) and x[0] == 'P' for x in subterms(v_)) or v[0] == 'M' or \
                             any(a[0] in ('raises',) for a in lits)
                         if from_self or overridden:
                             if k not in seen:
@@ -1217,3 +1222,57 @@ def rule_eq_reflexive(check, rule):
                                 'counterpart' % (ci.name, norm(res)[:70], me, other), key=key,
                                 witness="from __future__ import annotations; def f(a: Annotated[int, object()]): ...; s = sigtools.signature(f); s == s is False")
     check.floor(rule, '__eq__ overrides', n, 3)
+
+
+def rule_replace_restricts_sources(check, rule):
+    """C08.R8 (D47): "nothing refers to a parameter that is not in the signature".  inspect derives the signature of a bound method, of a
+    class from its __init__, of an instance from its __call__ by `sig.replace(parameters=params[1:])` on the signature it found -- which is
+    an UpgradedSignature whenever the function carries one in __signature__ (modifiers.annotate, kwoargs, ...).  On every path of
+    UpgradedSignature.replace that is given new parameters and no provenance map, the map of the result is not the receiver's map as it
+    is (which still has the entry of the dropped parameter) but one restricted to the parameters that are left."""
+    repo = check.repo
+    ci = repo.cls('%s:UpgradedSignature' % SIG)
+    m = ci.methods.get('replace')
+    if m is None:
+        check.holds(rule, '-', 'UpgradedSignature does not override replace', key='replace-restricts|none', nontrivial=False)
+        return
+    check.analysed(m)
+    it = Interp(repo, Policy(try_forks=True))
+    paths = it.run(m)
+    check.absorb(it)
+    selft = ('P', m.params()[0][0])
+    n = 0
+    bad = None
+    for p in paths:
+        if p.status != 'return':
+            continue
+        pv = None
+        for e, g in walk_effects(p.effects):
+            if e.kind == 'call' and e.op == '.replace' and e.target is not None and e.target[0] == 'C' and e.target[1] == 'super':
+                pv = dict(e.kws).get('parameters')
+        sv = None
+        for e in p.effects:
+            if e.kind == 'store_attr' and e.op == 'sources' and e.args:
+                sv = e.args[0]
+        if pv is None or sv is None:
+            continue
+        given = any(isinstance(x, tuple) and ((x[0] == 'M' and x[2] in ('pop', 'get') and x[3] and x[3][0] == K('parameters')) or
+                                              (x[0] == 'P' and x[1] == 'parameters')) for x in subterms(pv))
+        if not given:
+            continue
+        if any(a[0] == 'is' and a[1] == a[2] and not pol for a, pol in p.lits):
+            continue        # `x is x` answered no: not a path
+        n += 1
+        if sv == ('A', selft, 'sources'):
+            bad = bad or p
+    key = 'replace-restricts|UpgradedSignature'
+    if bad is not None:
+        node = [e for e in bad.effects if e.kind == 'store_attr' and e.op == 'sources'][-1].node
+        check.violation(rule, site_of(m, node), 'UpgradedSignature.replace(parameters=...) keeps the receiver\'s provenance map as it is: the entries of '
+                        'the parameters that were dropped stay, and the signature inspect derives for a bound method (or a class, an instance) of a '
+                        'function carrying an UpgradedSignature has a source entry for a `self` it does not have', key=key,
+                        witness="class A:\n    @modifiers.annotate(x=int)\n    def method(self, x): ...\n'self' in sigtools.signature(A().method).sources")
+    else:
+        check.holds(rule, site_of(m, m.node), 'replace(parameters=...) without a provenance map gives the result a map restricted to the new parameters '
+                    '(%d paths)' % n, key=key)
+    check.floor(rule, 'paths of replace() that are given parameters', n, 1)
